@@ -21,7 +21,8 @@ func init() { register(c02{}) }
 
 func (c02) ID() string { return "C02" }
 func (c02) Rule() string {
-	return "(codec) 2..4 frames in one Encode call of the registered .57 (predictor 1..7 as parameter) / .70 codecs, every decoded frame equal to its source. " +
+	return "(ffdense) 16-bit images whose scans are 50 KB .. 1 MB with a stuffed 0xFF every third byte at a drifting phase. " +
+		"(codec) 2..4 frames in one Encode call of the registered .57 (predictor 1..7 as parameter) / .70 codecs, every decoded frame equal to its source. " +
 		"library encoder -> library decoder, byte and geometry equality. cases: (enum) complete enumeration of all images of a small geometry at P=2/3 for each selector 0..7 and SV1 (batched, distinct by construction); " +
 		"(pairs) all (a,b) two-sample images horizontally and vertically: every difference value through the category/magnitude coder; (cell) P in 2..16 x components {1,3} x selector x content classes x boundary sizes; (long) 65535x1, 1x65535. " +
 		"non-trivial: the encoder accepted the image and the decoder output was compared; distinct = distinct descriptor"
@@ -162,6 +163,20 @@ func (c02) Build(tier string, seed uint64) []any {
 			r := gen.Sub(seed, "C02", "area", j*10+k)
 			cs = append(cs, &imgCase{Gen: "area", W: g[0], H: g[1], C: gen.Pick(r, 1, 3), P: gen.Pick(r, 8, 12, 16), Sel: sel, Class: gen.Pick(r, "noise", "smooth", "runs"), CSeed: r.U64()})
 		}
+	}
+	// (ffdense) scans of 50 KB .. 1 MB in which every third byte is a stuffed 0xFF at a drifting
+	// phase: a 0xFF on every kind of buffer boundary the byte writer may have
+	nFF := 24
+	if tier == "thorough" {
+		nFF = 240
+	}
+	for k := 0; k < nFF; k++ {
+		r := gen.Sub(seed, "C02", "ffdense", k)
+		w, h := 120+r.Intn(140), 120+r.Intn(140)
+		if k%6 == 5 {
+			w, h = 400+r.Intn(200), 400+r.Intn(200)
+		}
+		cs = append(cs, &imgCase{Gen: "ffdense", W: w, H: h, C: gen.Pick(r, 1, 1, 3), P: 16, Sel: gen.Pick(r, 1, 1, 2, 8, 0, 7), Class: "ffdense", CSeed: r.U64()})
 	}
 	// (codec) 2..4 frames in one Encode call of the registered .57 (predictor as parameter) and .70
 	// codecs: image-specific Huffman tables and predictor state must not carry over between frames
